@@ -75,6 +75,7 @@ class Merged:
         self.inconclusive: List[str] = []
         self.errors: List[str] = []
         self.budget_hit = False
+        self.planned = 0        # cases the generator held for this run (== evaluations unless the wall budget cut it short)
 
     def add(self, case: Dict[str, Any], res: Dict[str, Any], keep_samples: int = 6) -> None:
         self.evaluations += 1
@@ -103,7 +104,7 @@ class Merged:
             'sets': {k: sorted(v) for k, v in self.sets.items()},
             'samples': self.samples, 'viol': self.viol,
             'inconclusive': self.inconclusive, 'errors': self.errors,
-            'budget_hit': self.budget_hit,
+            'budget_hit': self.budget_hit, 'planned': self.planned,
         }
 
     def merge_json(self, d: Dict[str, Any]) -> None:
@@ -121,6 +122,7 @@ class Merged:
         self.inconclusive.extend(d['inconclusive'])
         self.errors.extend(d['errors'])
         self.budget_hit = self.budget_hit or d.get('budget_hit', False)
+        self.planned += d.get('planned', d['evaluations'])
 
 
 def run_cases(mod: Any, tier: str, seed: int, shard: int, nshards: int, budget_s: float,
@@ -130,13 +132,24 @@ def run_cases(mod: Any, tier: str, seed: int, shard: int, nshards: int, budget_s
     if hasattr(mod, 'begin'):
         mod.begin(tier)
     try:
-        it = [only_case] if only_case is not None else mod.cases(tier, seed)
+        if only_case is not None:
+            it: List[Any] = [only_case]
+        else:
+            # Generators emit cases class by class; a deterministic shuffle makes every prefix of the run a fair sample of
+            # all classes, so that a run cut short by the wall budget (loaded machine) still meets its (scaled) floors.
+            import random as _random
+            it = list(mod.cases(tier, seed))
+            if not getattr(mod, 'KEEP_ORDER', False):
+                _random.Random('order:%s:%d' % (mod.PROPERTY, seed)).shuffle(it)
         for i, case in enumerate(it):
             if only_case is None and i % nshards != shard:
                 continue
+            m.planned += 1
+            if m.budget_hit:
+                continue        # wall budget used up: the remaining cases are only counted (for the scaled floors)
             if time.time() - t0 > budget_s:
                 m.budget_hit = True
-                break
+                continue
             try:
                 res = mod.run_case(case)
             except Exception:   # harness error: never a verdict on the property
@@ -266,9 +279,15 @@ def report(mod: Any, m: Merged, tier: str, seed: int, t0: float, write_evidence:
     counters['distinct_nontrivial'] = len(m.nontrivial_sigs)
     for k, vs in m.sets.items():
         counters['distinct:' + k] = len(vs)
+    # The floors describe a complete run.  When the wall budget cut the run short (loaded machine) they are scaled to the
+    # fraction of the planned cases that was actually executed, so that a truncated run is judged on what it had the chance to see.
+    fraction = 1.0
+    if m.budget_hit and m.planned > 0:
+        fraction = max(0.05, min(1.0, m.evaluations / float(m.planned)))
     for k, mn in floors.items():
-        if counters.get(k, 0) < mn:
-            floor_fail.append('%s=%d<%d' % (k, counters.get(k, 0), mn))
+        eff = mn if fraction >= 1.0 else max(1 if fraction >= 0.25 else 0, int(mn * fraction * 0.7))
+        if counters.get(k, 0) < eff:
+            floor_fail.append('%s=%d<%d' % (k, counters.get(k, 0), eff))
     inconc_frac = (len(m.inconclusive) / m.evaluations) if m.evaluations else 1.0
     inconclusive_reason = None
     if floor_fail:
@@ -301,6 +320,8 @@ def report(mod: Any, m: Merged, tier: str, seed: int, t0: float, write_evidence:
             'known_findings_hit': hit_known,
             'new_violation_keys': sorted(new.keys()),
             'budget_hit': m.budget_hit,
+            'cases_planned': m.planned,
+            'floor_scale': round(fraction, 3),
             'verdict': 'violated' if new else ('inconclusive' if rc == 2 else 'held-on-observed'),
         }
         if getattr(mod, 'EXHAUSTIVE', None) and not m.budget_hit:
